@@ -193,6 +193,64 @@ theorem C13_phase (M : MM) (S : Script) (isUser : Nat → Bool) (resolves : List
     obtain ⟨r, _, rfl⟩ := List.mem_map.1 ha
     simp [Ev.isProc] at hap
 
+/-- **Phase, models of several metamodels.** The same when every model of the load
+is walked with its own metamodel (`call_obj_processors(m._tx_metamodel, m)`). -/
+theorem C13_phase_models (S : Script) (isUser : Nat → Bool) (resolves : List Nat) (models : List (MM × Val)) :
+    (finishMM S isUser resolves models).Pairwise (fun x y => x.isProc = true → y.isProc = true) := by
+  unfold finishMM
+  rw [List.pairwise_append]
+  refine ⟨?_, ?_, ?_⟩
+  · refine List.pairwise_of_forall_mem_list ?_
+    intro a ha b _ hap
+    obtain ⟨r, _, rfl⟩ := List.mem_map.1 ha
+    simp [Ev.isProc] at hap
+  · rw [List.pairwise_append]
+    refine ⟨?_, ?_, ?_⟩
+    · refine List.pairwise_of_forall_mem_list ?_
+      intro a ha b _ hap
+      rw [initsFrom_not_proc isUser _ 0 a ha] at hap
+      simp at hap
+    · refine List.pairwise_of_forall_mem_list ?_
+      intro a _ b hb _
+      exact procsFromMM_proc S models 0 b hb
+    · intro a _ b hb _
+      exact procsFromMM_proc S models 0 b hb
+  · intro a ha b _ hap
+    obtain ⟨r, _, rfl⟩ := List.mem_map.1 ha
+    simp [Ev.isProc] at hap
+
+/-- **Each model with its own metamodel.** The processor calls of a load are, model
+by model, the calls of the walk of that model with the metamodel the model
+belongs to (so every `C13_*` statement about `walk` applies to each model with its
+own registrations); with one metamodel for all models this is `finish`. -/
+theorem C13_models_own_metamodel (S : Script) (isUser : Nat → Bool) (resolves : List Nat) (models : List (MM × Val)) :
+    (finishMM S isUser resolves models).filter Ev.isProc = procsFromMM S 0 models := by
+  unfold finishMM
+  rw [List.filter_append, List.filter_append]
+  have h1 : (resolves.map Ev.resolve).filter Ev.isProc = [] := by
+    rw [List.filter_eq_nil_iff]
+    intro a ha
+    obtain ⟨r, _, rfl⟩ := List.mem_map.1 ha
+    simp [Ev.isProc]
+  have h2 : (initsFrom isUser 0 (models.map (·.2))).filter Ev.isProc = [] := by
+    rw [List.filter_eq_nil_iff]
+    intro a ha
+    rw [initsFrom_not_proc isUser _ 0 a ha]
+    simp
+  have h3 : (procsFromMM S 0 models).filter Ev.isProc = procsFromMM S 0 models := by
+    rw [List.filter_eq_self]
+    intro a ha
+    exact procsFromMM_proc S models 0 a ha
+  rw [h1, h2, h3]
+  rfl
+
+theorem C13_finish_single (M : MM) (S : Script) (isUser : Nat → Bool) (resolves : List Nat) (models : List Val) :
+    finishMM S isUser resolves (models.map (fun v => (M, v))) = finish M S isUser resolves models := by
+  unfold finishMM finish
+  rw [procsFromMM_const M S models 0, List.map_map]
+  congr 2
+  simp [Function.comp_def]
+
 /-! ## non-vacuity
 
 classes: 0 `Model` (common), 1 `A` (common), 2 `B` (common), 3 `Base` (abstract: A | B | INT), 4 `INT` (match).
@@ -219,5 +277,17 @@ example : (walk exM exS exV 0).log.map Entry.key =
     [(3, 12), (1, 11), (3, 11), (3, 13), (1, 14), (0, 10)] := by decide
 example : (occ exV 0).map (fun o => (o.id, o.cls, o.gm)) =
     [(12, 2, 3), (11, 1, 3), (13, 2, 3), (14, 1, 1), (10, 0, 0)] := by decide
+
+/-- a second metamodel of the same grammar with processors on `B` only -/
+def exM' : MM where
+  kind := exM.kind
+  hasProc c := c = 2
+
+/-- a load of two models, the second one (an imported file) belonging to `exM'`;
+`A` is a user class -/
+example : finishMM exS (fun c => c = 1) [0] [(exM, exV), (exM', exV)] =
+    [.resolve 0, .init 0 11, .init 0 14, .init 1 11, .init 1 14,
+     .proc 0 3 12, .proc 0 1 11, .proc 0 3 11, .proc 0 3 13, .proc 0 1 14, .proc 0 0 10,
+     .proc 1 2 12, .proc 1 2 13] := by decide
 
 end Proc
